@@ -190,6 +190,9 @@ def h_sub(sx):
         exp, _ = R.steps(sc["steps"], None)
     elif entry == "scenario":
         exp = R.items([dict(sc, k="s", tags=sc.get("tags"))], None)[0]
+    elif entry == "rule":
+        rule = [it for it in tree["items"] if it["k"] == "r"][0]
+        exp = R.items([rule], None)[0]
     else:
         flat = R.taglines(p["tags"])
     lines = [sx.choice("L%03d" % i, l.variants) if len(l.variants) > 1 else l.variants[0] for i, l in enumerate(R.lines)]
@@ -207,13 +210,22 @@ def h_sub(sx):
             c.tags(got, exp["tags"], "parse_scenario")
             c.common(got, exp, "parse_scenario", aliases=R.aliases("scenario"))
             c.steps(list(got.steps), exp["steps"], "parse_scenario")
+        elif entry == "rule":
+            import behave.model as model
+            got = parser.parse_rule(gherkin.make_text(sx, lines), language=L)
+            c.check(isinstance(got, model.Rule), "structure-order", "parse_rule", type(got).__name__, "Rule")
+            if isinstance(got, model.Rule):
+                c.common(got, exp, "parse_rule", aliases=R.aliases("rule"))
+                c.items(got, exp["items"], "parse_rule", R)
         else:
             got = parser.parse_tags(lines[0])
             c.check(len(got) == len(flat), "tags", "parse_tags", [str(t) for t in got], flat)
             for g, e in zip(got, flat):
                 c.check(eq(g, e), "tags", "parse_tags", g, e)
     except parser.ParserError as e:
-        sx.check(False, "C04.well-formed-document-parses", detail=lambda m: {"entry": entry, "error": str(e)[:300], "doc": doc(m)})
+        # known finding C04-F14: the parse_rule() entry point cannot parse a rule text (no feature context)
+        sx.check(False, "C04.well-formed-document-parses", detail=lambda m: {"entry": entry, "error": str(e)[:300], "doc": doc(m)},
+                 known=[("C04-F14", entry == "rule")])
         return ["ParserError", e.line]
     return ["ok", len(lines)]
 
@@ -262,6 +274,8 @@ def jobs(tier, seed):
                       reach=["C04.step-type", "C04.step-name"], min_paths=1, cost=20, validate=20, closure=False))
     js.append(Job("scenario.basic", "props.c04:h_sub", {"tree": "basic", "index": 0, "entry": "scenario"},
                   reach=["C04.step-type", "C04.name"], min_paths=1, cost=20, validate=20, closure=False))
+    js.append(Job("rule.mixed", "props.c04:h_sub", {"tree": "mixed", "entry": "rule"},
+                  reach=["C04.well-formed-document-parses"], min_paths=1, cost=20, validate=20, closure=False))
     js.append(Job("tags", "props.c04:h_sub", {"tree": "basic", "entry": "tags", "tags": ["a", "b.c", "x=1"]},
                   reach=["C04.tags"], min_paths=1, cost=5, validate=20, closure=False))
     return js
